@@ -383,6 +383,9 @@ func chainReplay(s *Summary, raw json.RawMessage) {
 		if (sp.gBefore+sp.later)%3 == 2 { // sometimes the outer group has the root prefix: it is a group all the same
 			outerPrefix = "/"
 		}
+		if (sp.outer+sp.inUse)%3 == 1 && chainRunHook == nil { // or a prefix that IS a path variable: the route has no static first segment
+			outerPrefix = "/{lang}"
+		}
 		chainRunOnce(s, &c, sp, outerPrefix, false)
 		if c.Kind == "route" && (n <= 3 || (sp.inner+sp.variadic)%2 == 1) {
 			// the same chain on a DYNAMIC route of a caching router, observed on the cache hit (second request)
@@ -443,6 +446,9 @@ func chainRunOnce(s *Summary, c *chainCase, sp chainSplit, outerPrefix string, c
 			var rt *rux.Route
 			if outerPrefix != "/g" {
 				path = "/h/x"
+			}
+			if outerPrefix == "/{lang}" {
+				path = "/en/h/x"
 			}
 			r.Group(outerPrefix, func() {
 				for _, h := range outUse {
@@ -604,6 +610,9 @@ func chainRunOnce(s *Summary, c *chainCase, sp chainSplit, outerPrefix string, c
 		sibPrefix := outerPrefix
 		if sibPrefix == "/" {
 			sibPrefix = ""
+		}
+		if sibPrefix == "/{lang}" {
+			sibPrefix = "/en"
 		}
 		for _, pr := range []struct {
 			path    string
